@@ -150,6 +150,12 @@ void PositiveVisitor::bvisit(const Add &x)
 
     bool can_be_true = true;
     bool can_be_false = true;
+    if (is_a_Complex(*coef) or coef->is_complex()) {
+        // a non-real constant term: the signs of the other terms say
+        // nothing about the sum
+        is_positive_ = tribool::indeterminate;
+        return;
+    }
     if (coef->is_positive()) {
         can_be_false = false;
     } else if (coef->is_negative()) {
